@@ -48,6 +48,7 @@ class GenerationalDistance(Indicator):
         if len(feasible) == 0:
             return POSITIVE_INFINITY
 
+        normalize(self.reference_set, self.minimum, self.maximum)
         normalize(feasible, self.minimum, self.maximum)
         return math.pow(sum([math.pow(distance_to_nearest(s, self.reference_set), self.d) for s in feasible]), 1.0 / self.d) / len(feasible)
 
@@ -70,6 +71,7 @@ class InvertedGenerationalDistance(Indicator):
 
     def calculate(self, set):
         feasible = [s for s in set if s.constraint_violation == 0.0]
+        normalize(self.reference_set, self.minimum, self.maximum)
         normalize(feasible, self.minimum, self.maximum)
         return math.pow(sum([math.pow(distance_to_nearest(s, feasible), self.d) for s in self.reference_set]), 1.0 / self.d) / len(self.reference_set)
 
@@ -93,6 +95,7 @@ class EpsilonIndicator(Indicator):
         if len(feasible) == 0:
             return POSITIVE_INFINITY
 
+        normalize(self.reference_set, self.minimum, self.maximum)
         normalize(feasible, self.minimum, self.maximum)
         directions = feasible[0].problem.directions
         sign = [-1.0 if directions[k] == Direction.MAXIMIZE else 1.0 for k in range(feasible[0].problem.nobjs)]
